@@ -9,7 +9,7 @@ from vlib import core, prog, physics
 
 ASSUME = [
     "decided only for stationary, below-threshold states: stationarity gate = the last five recorded profiles (one per synchrotron period), each normalised to unit sum, agree to 5e-4 of the peak (runs last 20 damping times); otherwise the case is inconclusive, not a verdict",
-    "R(q) = ln rho(q) + q^2/2 - (1/a) * integral W_E dq with a = 2 pi/steps, W_E = stored wake (cells per step) * energy cell size, trapezoid rule on /Info/AxisValues_z; range of R over |q| <= 2 must be <= 5% of the range of the wake term + 0.01",
+    "R(q) = ln rho(q) + q^2/2 - (1/a) * integral W_E dq with a = 2 pi/steps, W_E = stored wake (cells per step) * energy cell size, trapezoid rule on /Info/AxisValues_z; range of R over |q| <= 2 must be <= 5% of the range of the wake term + 0.01 + 4*c*delta^2 (discretisation error of the grid's own equilibrium width, c as in C04)",
     "sign convention derived from the maps: drift moves charge by -a*p, RF kick by +tan(a)*q, wake kick by -W cells",
     "energy spread of the stationary state within 0.8*delta^2 + 1e-3 of 1",
     "the bunch current is chosen by a pilot run so that the wake term over the core lies between 0.05 and about 1",
@@ -24,13 +24,15 @@ def gen(seed, i, tier):
     n = r.choice([128, 128, 192, 256] if tier == "thorough" else [128, 128, 160])
     steps = r.choice([400, 500, 800, 1000])
     if i % 4 == 3:
-        n = r.choice([64, 80, 96])               # coarse mesh with very many steps per period: the wake creeps slowly
+        n = r.choice([80, 96, 112])              # coarse mesh with very many steps per period: the wake creeps slowly
         steps = r.choice([2000, 3000, 4000])
     d = 12.0 / (n - 1)
     e1 = min(r.uniform(1.5e-3, 3e-3), 0.25 * d * d)
     if i % 4 == 1:
         e1 = r.uniform(0.3, 0.45) * d * d        # upper part of the explicit scheme's stable range (e1/delta^2 < 0.5)
     target = r.loguniform(0.05, 1.0) if kind != 'csr' else r.loguniform(0.05, 0.15)   # shielded CSR goes unstable early
+    if i % 4 == 3 and kind != "csr":
+        target = max(target, 0.3)                # coarse mesh: the potential well must dominate the discretisation error
     o = dict(GridSize=n, StepsPerTs=steps, outstep=steps, SavePhaseSpace=0)
     if kind == "resistor":
         o["VacuumGap"] = 0
@@ -111,7 +113,9 @@ def run_case(args):
         if A["stationarity"] > 5e-4 or not (0.04 <= A["rangeT"] <= 1.6):
             out["incon"].append("not stationary / wake term out of window: stationarity=%.2g wake term range=%.3g" % (A["stationarity"], A["rangeT"]))
             return out
-        tol = 0.05 * A["rangeT"] + 0.01
+        # a width error eps of the grid's own equilibrium shows up as eps*q^2, i.e. 4*eps over |q| <= 2
+        order, deriv = oo.get("InterpolationPoints", 4), oo.get("derivation", 4)
+        tol = 0.05 * A["rangeT"] + 0.01 + 4 * (0.25 if (order == 4 and deriv == 4) else 0.8) * Pc["delta"] ** 2
         out["res"]["haissinski_residual_over_tol." + kind] = A["rangeR"] / tol
         out["judged"] = 1
         if A["rangeR"] > tol:
